@@ -69,13 +69,15 @@ def set_updates(fa):
     kind 'elem' (s.add(x), s |= {x}, s.update({x}) — operand x) or 'union' (s |= t, s.update(t) — operand t)."""
     out = []
     for c in fa.calls():
-        if not isinstance(c.func, ast.Attribute) or len(c.args) != 1 or c.keywords or not fa.nodes(c):
+        if not isinstance(c.func, ast.Attribute) or not c.args or c.keywords or not fa.nodes(c) or any(isinstance(a, ast.Starred) for a in c.args):
             continue
-        if c.func.attr == "add":
+        if c.func.attr == "add" and len(c.args) == 1:
             out.append((fa.nodes(c), c.func.value, "elem", c.args[0]))
         elif c.func.attr == "update":
-            x = _single(c.args[0])
-            out.append((fa.nodes(c), c.func.value, "elem" if x is not None else "union", x if x is not None else c.args[0]))
+            # s.update(a, b) is s.update(a); s.update(b)
+            for a in c.args:
+                x = _single(a)
+                out.append((fa.nodes(c), c.func.value, "elem" if x is not None else "union", x if x is not None else a))
     for s in fa.stmts(ast.AugAssign):
         if isinstance(s.op, ast.BitOr) and fa.nodes(s) and not rebinds_local(fa, s):
             x = _single(s.value)
@@ -170,9 +172,12 @@ def feeding_calls(fa, expr, at, name, _seen=None):
 # walks whose branch decisions agree with each other
 # =================================================================================================
 
-def _sig(fa, t, at):
-    """By which definitions the names of the test `t` are bound at node `at`."""
-    return frozenset((v, frozenset(d.node for d in fa.df.reaching(at, v))) for v in {x.id for x in ast.walk(t) if isinstance(x, ast.Name)})
+def _sig(fa, t, at, last=None):
+    """By which definitions the names of the test `t` are bound at node `at` (`last`: the one definition a walk passed
+    last, for the names it keeps track of)."""
+    last = last or {}
+    return frozenset((v, frozenset([last[v]]) if v in last else frozenset(d.node for d in fa.df.reaching(at, v)))
+                     for v in {x.id for x in ast.walk(t) if isinstance(x, ast.Name)})
 
 
 def _opened(fa, t, at):
@@ -189,17 +194,19 @@ def _opened(fa, t, at):
     return t
 
 
-def _known(fa, t, at, facts, sig=None):
+def _known(fa, t, at, facts, sig=None, last=None):
     """Three-valued reading of the test `t` (at node `at`) under the branch facts {literal text: (polarity, sig)}
     established earlier on the walk; a fact counts only when the names of its test were bound by the same definitions
     as they are here.  True / False / None (not decided by the facts)."""
-    sig = _sig(fa, t, at) if sig is None else sig
+    if isinstance(t, ast.Constant):
+        return bool(t.value)
+    sig = _sig(fa, t, at, last) if sig is None else sig
     t = _opened(fa, t, at)
     if isinstance(t, ast.UnaryOp) and isinstance(t.op, ast.Not):
-        v = _known(fa, t.operand, at, facts, sig if getattr(t, "_no_expand", False) else None)
+        v = _known(fa, t.operand, at, facts, sig if getattr(t, "_no_expand", False) else None, last)
         return None if v is None else not v
     if isinstance(t, ast.BoolOp):
-        vs = [_known(fa, v, at, facts, sig if getattr(t, "_no_expand", False) else None) for v in t.values]
+        vs = [_known(fa, v, at, facts, sig if getattr(t, "_no_expand", False) else None, last) for v in t.values]
         dom = isinstance(t.op, ast.Or)      # one disjunct true / one conjunct false decides
         if any(v is dom for v in vs):
             return dom
@@ -211,36 +218,275 @@ def _known(fa, t, at, facts, sig=None):
     return f[0] == pol
 
 
-def _facts_of(fa, t, at, positive, sig=None):
+def _facts_of(fa, t, at, positive, sig=None, last=None):
     """[(literal text, polarity, sig)] established by taking the test `t` with the given polarity (a conjunction
     taken true / a disjunction taken false splits into its parts)."""
-    sig = _sig(fa, t, at) if sig is None else sig
+    sig = _sig(fa, t, at, last) if sig is None else sig
     t = _opened(fa, t, at)
     sub = sig if getattr(t, "_no_expand", False) else None
     if isinstance(t, ast.UnaryOp) and isinstance(t.op, ast.Not):
-        return _facts_of(fa, t.operand, at, not positive, sub)
+        return _facts_of(fa, t.operand, at, not positive, sub, last)
     if isinstance(t, ast.BoolOp) and ((isinstance(t.op, ast.And) and positive) or (isinstance(t.op, ast.Or) and not positive)):
-        return [f for v in t.values for f in _facts_of(fa, v, at, positive, sub)]
+        return [f for v in t.values for f in _facts_of(fa, v, at, positive, sub, last)]
     text, pol = fa._literal(t, at, positive)
     return [(text, pol, sig)]
+
+
+def record_fields_of(repo, module, name, _depth=0):
+    """Field names, in constructor order, of the record type the module knows as `name`: a NamedTuple / dataclass /
+    plain-constructor class (see c15._record_fields), `name = NamedTuple("X", [("a", T), ...])`, `namedtuple("X", ...)`,
+    or one of these imported from another module of the package.  None when `name` is not such a type."""
+    from .c15 import _record_fields
+    if _depth > 3 or module is None:
+        return None
+    cls = module.classes.get(name)
+    if cls is not None:
+        f = _record_fields(cls)
+        if not f or any(pos is None for (pos, _n) in f.values()):
+            return None
+        out = sorted(f, key=lambda k: f[k][0])
+        return out if [f[k][0] for k in out] == list(range(len(out))) else None
+    v = module.assigns.get(name)
+    if isinstance(v, ast.Call) and A.call_attr(v) in ("NamedTuple", "namedtuple") and len(v.args) == 2 and not v.keywords:
+        spec = v.args[1]
+        if isinstance(spec, ast.Constant) and isinstance(spec.value, str):
+            return spec.value.replace(",", " ").split()
+        if isinstance(spec, (ast.List, ast.Tuple)):
+            out = []
+            for x in spec.elts:
+                if isinstance(x, ast.Tuple) and x.elts:
+                    x = x.elts[0]
+                if not (isinstance(x, ast.Constant) and isinstance(x.value, str)):
+                    return None
+                out.append(x.value)
+            return out
+        return None
+    org = module.imports.get(name)
+    if org and ":" in org:
+        mod, nm = org.split(":", 1)
+        return record_fields_of(repo, repo.modules.get(mod.lstrip(".").split(".")[-1]), nm, _depth + 1)
+    return None
+
+
+def constant_fields(fa, call):
+    """{field: constant} for a record built in place with constants in some fields (`Result(value=None, ok=False)`)."""
+    if not (isinstance(call, ast.Call) and isinstance(call.func, ast.Name)) or any(isinstance(a, ast.Starred) for a in call.args) \
+            or any(k.arg is None for k in call.keywords):
+        return {}
+    names = record_fields_of(fa.ck.repo, fa.fi.module, call.func.id)
+    if not names or len(call.args) > len(names):
+        return {}
+    got = dict(zip(names, call.args))
+    got.update({k.arg: k.value for k in call.keywords if k.arg in names})
+    return {f: v.value for f, v in got.items() if isinstance(v, ast.Constant)}
+
+
+def private_sentinels(fa):
+    """Module-level names bound once to a fresh `object()` that the module uses for nothing but identity tests, plain
+    assignments to locals and returns, and that no other module imports: no value that was not read from that very
+    name is identical to it."""
+    mod = fa.fi.module
+    cached = mod.__dict__.get("_private_sentinels")
+    if cached is not None:
+        return cached
+    out = set()
+    for name, v in mod.assigns.items():
+        if not (isinstance(v, ast.Call) and isinstance(v.func, ast.Name) and v.func.id == "object" and not v.args and not v.keywords):
+            continue
+        ok = True
+        parents = {}
+        for n in ast.walk(mod.tree):
+            for ch in ast.iter_child_nodes(n):
+                parents[id(ch)] = n
+        stores = 0
+        for n in ast.walk(mod.tree):
+            if isinstance(n, (ast.Global, ast.Nonlocal)) and name in n.names:
+                ok = False
+            if isinstance(n, ast.Name) and n.id == name:
+                par = parents.get(id(n))
+                if isinstance(n.ctx, ast.Store):
+                    stores += 1
+                elif isinstance(par, ast.Compare) and len(par.ops) == 1 and isinstance(par.ops[0], (ast.Is, ast.IsNot)):
+                    pass
+                elif isinstance(par, ast.Return) or (isinstance(par, ast.Assign) and par.value is n and all(isinstance(t, ast.Name) for t in par.targets)):
+                    pass
+                elif isinstance(par, ast.IfExp) and n is not par.test:
+                    pass
+                else:
+                    ok = False
+        if stores != 1:
+            ok = False
+        for other in fa.ck.repo.modules.values():
+            if other is not mod and any(o.endswith(":" + name) and o.split(":")[0].lstrip(".").split(".")[-1] == mod.name for o in other.imports.values()):
+                ok = False
+        if ok:
+            out.add(name)
+    mod.__dict__["_private_sentinels"] = out
+    return out
+
+
+def _cannot_be(fa, e, name):
+    """The value of `e` is not the object the module-level sentinel `name` holds: `e` does not read the name and calls
+    nothing of this module that does."""
+    mod = fa.fi.module
+    mentions = mod.__dict__.setdefault("_mentions_%s" % name, {})
+    if not mentions:
+        for f in ast.walk(mod.tree):
+            if isinstance(f, (ast.FunctionDef, ast.AsyncFunctionDef, ast.Lambda)):
+                if any(isinstance(x, ast.Name) and x.id == name for x in ast.walk(f)):
+                    mentions[getattr(f, "name", "<lambda>")] = True
+        mentions[""] = False
+    for n in ast.walk(e):
+        if isinstance(n, ast.Name) and n.id == name:
+            return False
+        if isinstance(n, ast.Lambda) and mentions.get("<lambda>"):
+            return False
+        if isinstance(n, ast.Call):
+            callee = n.func.id if isinstance(n.func, ast.Name) else (n.func.attr if isinstance(n.func, ast.Attribute) else None)
+            if callee is None or mentions.get(callee):
+                return False
+    return True
+
+
+class _Bound:
+    """What a walk knows about plain locals from the bindings it passed: `x = y` (x is y until either is bound
+    again), `x = Record(..., ok=False)` (the constant fields of the record x holds), `x = <expression>` (what x was
+    computed from: decides `x is SENTINEL` for a private sentinel of the module)."""
+
+    def __init__(self, fa):
+        self.fa = fa
+        self._consts = {}
+        self._exprs = {}
+        self.sentinels = private_sentinels(fa)
+        # the locals kept track of: those a branch test reads, and those copied into them
+        names = set()
+        for nd in fa.cfg.nodes:
+            if nd.kind == "test" and nd.ast is not None:
+                names |= {x.id for x in ast.walk(nd.ast) if isinstance(x, ast.Name)}
+        grew = True
+        while grew:
+            grew = False
+            for ds in fa.df.gen.values():
+                for d in ds:
+                    if d.name in names and d.kind == "assign" and isinstance(d.value, ast.Name) and d.value.id not in names:
+                        names.add(d.value.id)
+                        grew = True
+        self.names = names
+
+    @staticmethod
+    def last(binds):
+        return {k: node for (k, _kind, _x, node) in binds}
+
+    def after(self, n, binds):
+        ds = self.fa.df.gen.get(n, [])
+        if not ds:
+            return binds
+        if not any(d.name in self.names for d in ds):
+            return binds
+        cur = {k: v for (k, *v) in binds}
+        new = dict(cur)
+        for d in ds:
+            new.pop(d.name, None)
+            for k in [k for k, v in new.items() if v[0] == "alias" and v[1] == d.name]:
+                new[k] = ["def", 0, new[k][2]]
+        for d in ds:
+            if d.name not in self.names:
+                continue
+            v = d.value
+            new[d.name] = ["def", 0, n]
+            if v is None:
+                continue
+            if d.kind == "assign" and len(ds) == 1 and isinstance(v, ast.Name) and v.id != d.name:
+                new[d.name] = list(cur[v.id][:2]) + [n] if v.id in cur and cur[v.id][0] != "def" else ["alias", v.id, n]
+                continue
+            if d.kind == "assign" and len(ds) == 1 and isinstance(v, ast.Call):
+                if id(v) not in self._consts:
+                    self._consts[id(v)] = constant_fields(self.fa, v)
+                if self._consts[id(v)]:
+                    new[d.name] = ["record", id(v), n]
+                    continue
+            if d.kind in ("assign", "unpack"):
+                self._exprs[id(v)] = (v, d.kind == "assign" and len(ds) == 1, n)
+                new[d.name] = ["value", id(v), n]
+        return frozenset((k, v[0], v[1], v[2]) for k, v in new.items())
+
+    def _identical(self, x, s, cur):
+        """Is the local `x` the sentinel `s` on this walk?  True / False / None."""
+        if x == s:
+            return True
+        kind, what = cur.get(x, (None, None))
+        if kind == "alias":
+            return True if what == s else None
+        if kind == "record":
+            return False
+        if kind == "value":
+            return False if _cannot_be(self.fa, self._exprs[what][0], s) else None
+        return None
+
+    def resolve(self, t, binds):
+        """The test `t` with what the walk knows about its locals written in."""
+        cur = {k: (kind, x) for (k, kind, x, _node) in binds}
+        names = {n.id for n in ast.walk(t) if isinstance(n, ast.Name)}
+        if not (names & (set(cur) | self.sentinels)):
+            return t
+        consts = self._consts
+        me = self
+
+        class T(ast.NodeTransformer):
+            def visit_Compare(self, n):
+                if len(n.ops) == 1 and isinstance(n.ops[0], (ast.Is, ast.IsNot)) and isinstance(n.left, ast.Name) and isinstance(n.comparators[0], ast.Name):
+                    a, b = n.left.id, n.comparators[0].id
+                    if a in me.sentinels:
+                        a, b = b, a
+                    if b in me.sentinels:
+                        v = me._identical(a, b, cur)
+                        if v is not None:
+                            return ast.copy_location(ast.Constant(value=v == isinstance(n.ops[0], ast.Is)), n)
+                self.generic_visit(n)
+                return n
+
+            def visit_Attribute(self, n):
+                if isinstance(n.ctx, ast.Load) and isinstance(n.value, ast.Name) and cur.get(n.value.id, ("", 0))[0] == "record" \
+                        and n.attr in consts[cur[n.value.id][1]]:
+                    return ast.copy_location(ast.Constant(value=consts[cur[n.value.id][1]][n.attr]), n)
+                self.generic_visit(n)
+                return n
+
+            def visit_Name(self, n):
+                kind, what = cur.get(n.id, ("", 0))
+                if isinstance(n.ctx, ast.Load) and kind == "alias":
+                    return ast.copy_location(ast.Name(id=what, ctx=ast.Load()), n)
+                if isinstance(n.ctx, ast.Load) and kind == "value" and me._exprs[what][1]:
+                    # the one plain assignment this walk passed last: the name stands for what was assigned (as it does
+                    # for FA.expand where that assignment is the only one reaching)
+                    e, _plain, at = me._exprs[what]
+                    try:
+                        return ast.copy_location(me.fa.expand(e, at), n)
+                    except (AnalysisError, RecursionError):
+                        return n
+                return n
+        import copy
+        return ast.fix_missing_locations(T().visit(copy.deepcopy(t)))
 
 
 def consistent_walk(fa, targets, via=None, avoid=(), cap=60000):
     """A walk entry -> (one of `via`, when given) -> one of `targets` that never passes `avoid` and on which no branch
     is taken against what an earlier branch of the same walk established (`if v: A` ... `if v and w: B`: B only after
-    A's branch).  Facts are forgotten at loop heads.  Returns the list of node ids, [] when there is none, or None when
+    A's branch; `r = probe() ... if r.ok: A ... s = r ... if s.ok: B` likewise, and `s = Result(ok=False)` decides
+    `if s.ok`).  Facts are forgotten at loop heads.  Returns the list of node ids, [] when there is none, or None when
     the search was cut off (callers then decide on plain reachability)."""
     cfg = fa.cfg
     targets, avoid = set(targets), set(avoid)
     via = set(via) if via is not None else None
-    start = (cfg.entry, via is None, frozenset())
+    bound = _Bound(fa)
+    start = (cfg.entry, via is None, frozenset(), frozenset())
     prev = {start: None}
     stack = [start]
     while stack:
         if len(prev) > cap:
             return None
         state = stack.pop()
-        n, after, lits = state
+        n, after, lits, binds = state
         if n in avoid:
             continue
         if after and n in targets:
@@ -253,18 +499,21 @@ def consistent_walk(fa, targets, via=None, avoid=(), cap=60000):
             after = True
         nd = cfg.node(n)
         loop_head = nd.kind == "for" or (nd.kind == "test" and isinstance(fa.pm.get(nd.ast), ast.While))
+        binds2 = bound.after(n, binds)
         for (d, l) in cfg.succ[n]:
             new = lits
             if loop_head:
                 new = frozenset()
             elif nd.kind == "test" and nd.ast is not None and l in ("T", "F"):
+                test = bound.resolve(nd.ast, binds2)
+                last = bound.last(binds2)
                 facts = {t: (pol, g) for (t, pol, g) in lits}
-                if _known(fa, nd.ast, n, facts) is (l != "T"):
+                if _known(fa, test, n, facts, None, last) is (l != "T"):
                     continue
-                for (t, pol, g) in _facts_of(fa, nd.ast, n, l == "T"):
+                for (t, pol, g) in _facts_of(fa, test, n, l == "T", None, last):
                     facts[t] = (pol, g)
                 new = frozenset((t, pol, g) for (t, (pol, g)) in facts.items())
-            nxt = (d, after, new)
+            nxt = (d, after, new, binds2)
             if nxt not in prev:
                 prev[nxt] = state
                 stack.append(nxt)
@@ -286,26 +535,45 @@ def _compute_nodes(rl):
     return out
 
 
+def field_stores(fa):
+    """[(statement, target expression, [(value expression, node)] or None)] for every store into an attribute made by
+    an assignment of the function: `x.f = v`, and `x.f, y = v, w` / `x.f, y = pair` with `pair` a tuple display bound
+    earlier (each target then receives its own component; None when the component cannot be told)."""
+    out = []
+    for st in fa.stmts(ast.Assign):
+        if not fa.nodes(st):
+            continue
+        at = fa.nodes(st)[0]
+        for t in st.targets:
+            if isinstance(t, ast.Attribute):
+                out.append((st, t, [(st.value, at)]))
+            elif isinstance(t, (ast.Tuple, ast.List)) and any(isinstance(x, ast.Attribute) for x in t.elts):
+                lv = [(x, n) for (x, n) in origins(fa, st.value, at) if not A.is_none(x)]     # unpacking None raises
+                whole = bool(lv) and all(isinstance(x, (ast.Tuple, ast.List)) and len(x.elts) == len(t.elts)
+                                         and not any(isinstance(y, ast.Starred) for y in x.elts) for (x, _n) in lv) \
+                    and not any(isinstance(y, ast.Starred) for y in t.elts)
+                for i, x in enumerate(t.elts):
+                    if isinstance(x, ast.Attribute):
+                        out.append((st, x, [(v.elts[i], n) for (v, n) in lv] if whole else None))
+    return out
+
+
 def _adoptions(rl, pushed):
     """Assignments after which the pushed frame's memento is, or shares state with, something that was not built for
     this invocation: `<frame>.memento = <anything but a freshly constructed Memento>`, or a store into a part of
     `<frame>.memento` of a value read from the store's answer."""
     me = pushed + ".memento"
     out = []
-    for st in rl.stmts(ast.Assign):
-        if not rl.nodes(st):
-            continue
+    for (st, t, vals) in field_stores(rl):
         at = rl.nodes(st)[0]
-        for t in st.targets:
-            if not isinstance(t, ast.Attribute):
-                continue
-            tt = rl.xnorm(t, at)
-            if tt == me:
-                lv = origins(rl, st.value, at)
-                fresh = bool(lv) and all(isinstance(x, ast.Call) and isinstance(x.func, ast.Name) and x.func.id == "Memento" for (x, _n) in lv)
-                if not fresh:
-                    out.append(st)
-            elif tt.startswith(me + ".") and any(d.startswith("call:get_memento") for d in rl.deps(st.value, at)):
+        tt = rl.xnorm(t, at)
+        if tt == me:
+            lv = [o for (v, n) in vals or [] for o in origins(rl, v, n)]
+            fresh = bool(lv) and all(isinstance(x, ast.Call) and isinstance(x.func, ast.Name) and x.func.id == "Memento" for (x, _n) in lv)
+            if not fresh and st not in out:
+                out.append(st)
+        elif tt.startswith(me + ".") and (vals is None or any(d.startswith("call:get_memento") for (v, n) in vals for d in rl.deps(v, n))):
+            if st not in out:
                 out.append(st)
     return out
 
@@ -313,7 +581,11 @@ def _adoptions(rl, pushed):
 def _frame_memento_stores(rl, pushed):
     """Assignments to `<pushed frame>.memento`."""
     me = pushed + ".memento"
-    return [st for st in rl.stmts(ast.Assign) if rl.nodes(st) and any(isinstance(t, ast.Attribute) and rl.xnorm(t, rl.nodes(st)[0]) == me for t in st.targets)]
+    out = []
+    for (st, t, _vals) in field_stores(rl):
+        if rl.xnorm(t, rl.nodes(st)[0]) == me and st not in out:
+            out.append(st)
+    return out
 
 
 def _escapes(fa, starts, sites, extra_removed, edge_ok, targets, include_start=True):
@@ -425,8 +697,9 @@ def deferred_written_out(ck, fi):
 
     An exit stack runs its callbacks when the block is left, however it is left, last registered first, with the
     arguments as they were at registration, and a callback cannot swallow the exception.  Only the plain form is
-    rewritten: S is bound by `with ExitStack() as S`, is used for nothing but `S.callback(<function>, ...)` statements
-    standing directly in that block; anything else (pop_all, enter_context, push, the stack handed on, a callback
+    rewritten: S is bound by `with ExitStack() as S`, is used for nothing but `S.callback(<function>, ...)` and
+    `S.enter_context(<manager>)` statements standing directly in that block (the latter is the `with <manager>:` around
+    the rest of the block that it means); anything else (pop_all, push, the stack handed on, a callback
     registered under a condition) leaves the function as it is — the rules then see no clean-up at all and say so."""
     import copy
     from ..inline import Inliner, NotInlinable, _all_names
@@ -454,17 +727,34 @@ def deferred_written_out(ck, fi):
               and isinstance(w.items[0].optional_vars, ast.Name)]:
         S = w.items[0].optional_vars.id
         regs = {}
+        entered = set()
         for i, st in enumerate(w.body):
             if isinstance(st, ast.Expr) and isinstance(st.value, ast.Call) and isinstance(st.value.func, ast.Attribute) and st.value.func.attr == "callback" \
                     and isinstance(st.value.func.value, ast.Name) and st.value.func.value.id == S and st.value.args \
                     and not any(isinstance(a, ast.Starred) for a in st.value.args) and not any(k.arg is None for k in st.value.keywords) \
                     and isinstance(st.value.args[0], (ast.Name, ast.Attribute, ast.Lambda)):
                 regs[id(st.value.func.value)] = i
+            else:
+                # `S.enter_context(X)` / `v = S.enter_context(X)`: X is left after everything registered later, before
+                # everything registered earlier — a `with X [as v]:` around the rest of the block
+                c_ = st.value if isinstance(st, (ast.Expr, ast.Assign)) else None
+                if isinstance(c_, ast.Call) and isinstance(c_.func, ast.Attribute) and c_.func.attr == "enter_context" and isinstance(c_.func.value, ast.Name) \
+                        and c_.func.value.id == S and len(c_.args) == 1 and not c_.keywords and not isinstance(c_.args[0], ast.Starred) \
+                        and (isinstance(st, ast.Expr) or (len(st.targets) == 1 and isinstance(st.targets[0], ast.Name))):
+                    regs[id(c_.func.value)] = i
+                    entered.add(i)
         mentions = [n for n in _own_walk(node) if isinstance(n, ast.Name) and n.id == S]
         nested_mentions = [n for f in _own_walk(node) if isinstance(f, (ast.FunctionDef, ast.AsyncFunctionDef, ast.Lambda)) for n in ast.walk(f) if isinstance(n, ast.Name) and n.id == S]
         if not regs or nested_mentions or any(id(n) not in regs and n is not w.items[0].optional_vars for n in mentions):
             continue
+        if not (set(regs.values()) - entered):
+            continue
         for i in sorted(regs.values(), reverse=True):
+            if i in entered:
+                st = w.body[i]
+                item = ast.withitem(context_expr=st.value.args[0], optional_vars=st.targets[0] if isinstance(st, ast.Assign) else None)
+                w.body[i:] = [ast.copy_location(ast.With(items=[item], body=w.body[i + 1:] or [ast.copy_location(ast.Pass(), st)]), st)]
+                continue
             call = w.body[i].value
             pre, actual = [], []
             for a in list(call.args) + [k.value for k in call.keywords]:
@@ -584,6 +874,11 @@ class FrameScope:
                         actual = A.arg_or_kw(c, params.index(st.value.id), st.value.id)
                         if actual is not None:
                             self.sub["self." + st.targets[0].attr] = rl.xnorm(actual, rl.nodes(w)[0])
+                    elif len(st.targets) == 1 and isinstance(st.targets[0], ast.Attribute) and A.dotted(st.targets[0].value) == "self" and init.nodes(st) \
+                            and init.enclosing(st, (ast.If, ast.For, ast.While, ast.Try)) is None \
+                            and not any(isinstance(n, ast.Name) and (n.id == "self" or n.id in params) for n in ast.walk(st.value)):
+                        # ... or to something that does not depend on the constructor's arguments (`self.stack = CallStack.get()`)
+                        self.sub["self." + st.targets[0].attr] = init.xnorm(st.value, init.nodes(st)[0])
                 rebound = [t for f in (en, ex) for st in f.stmts((ast.Assign, ast.AugAssign)) for t in (st.targets if isinstance(st, ast.Assign) else [st.target])
                            if isinstance(t, ast.Attribute) and ("self." + t.attr) in self.sub and A.dotted(t.value) == "self"]
                 ck.need(not rebound, "%s: rebinds the fields it was constructed with" % c.func.id)
@@ -772,11 +1067,17 @@ def _r1_run_local(ck, R1):
     served = [r for r in rl.returns() if r.value is not None and rl.nodes(r) and "call:process_existing_memento" in rl.deps(r.value)]
     ck.need(served, "memento_run_local: no 'served from store' return found")
 
+    from .c15 import single_lookups
+    looked_up = {id(e): c for (e, c, recv, _k) in single_lookups(ck, rl) if rl.xnorm(recv, rl.nodes(c)[0]) == "storage_backend"}
+
     def stored(e, at):
-        lv = origins(rl, e, at)
-        return bool(lv) and all(isinstance(x, ast.Call) and A.call_attr(x) == "get_memento" and A.norm(A.call_recv(x)) == "storage_backend" for (x, _n) in lv)
-    asg = [s for s in rl.stmts(ast.Assign) if rl.nodes(s) and any(isinstance(t, ast.Attribute) and rl.xnorm(t, rl.nodes(s)[0]) == PUSHED + ".memento" for t in s.targets)
-           and stored(s.value, rl.nodes(s)[0]) and (sc.with_stmt is None or rl.inside(s, sc.with_stmt))]
+        lv = [(x, n) for (x, n) in origins(rl, e, at) if not A.is_none(x)]      # "nothing stored" is not adopted under a test of the value
+        return bool(lv) and all(id(x) in looked_up for (x, _n) in lv)
+    asg = []
+    for (st, t, vals) in field_stores(rl):
+        if rl.xnorm(t, rl.nodes(st)[0]) == PUSHED + ".memento" and vals and all(stored(v, n) for (v, n) in vals) \
+                and (sc.with_stmt is None or rl.inside(st, sc.with_stmt)) and st not in asg:
+            asg.append(st)
     an = rl.nodes_all(asg)
     for r in served:
         # where the served value is committed: the return itself, or the binding of the local that is returned later
